@@ -47,11 +47,13 @@ type c09In struct {
 	Perm     []int    `json:"perm"` // second server registers Regs[Perm[0]], Regs[Perm[1]], ...
 	Sub      bool     `json:"sub"`
 	Hist     []c09Op  `json:"hist,omitempty"` // history run on one further server, from NewServer()
+	HTTPSet  [][2]string `json:"http_set,omitempty"` // HttpServer setters (kind, value) applied before the static HTTP describe
 }
 
 // c09Op is one step of a history on ONE server.
 type c09Op struct {
-	Op  string  `json:"op"` // reg set_service set_server_id set_pv desc_pipe desc_http hash call
+	Op  string  `json:"op"` // reg set_service set_server_id set_pv desc_pipe desc_http hash call http_set
+	K   string  `json:"k,omitempty"` // http_set: which HttpServer setter
 	Reg *c09Reg `json:"reg,omitempty"`
 	S   string  `json:"s,omitempty"` // setter value / called method name
 }
@@ -388,12 +390,42 @@ func c09Pipe(s *vgirpc.Server) (*c09Resp, bool) {
 	return r1, ok
 }
 
-func c09HTTP(s *vgirpc.Server) (int, *c09Resp, bool) {
-	return c09HTTPWith(vgirpc.NewHttpServer(s))
+func c09HTTP(s *vgirpc.Server, sets [][2]string) (int, *c09Resp, bool) {
+	h := vgirpc.NewHttpServer(s)
+	for _, kv := range sets {
+		c09HTTPSet(h, kv[0], kv[1])
+	}
+	return c09HTTPWith(h)
+}
+
+// c09HTTPSetKinds: HttpServer front-end setters, none of which may influence __describe__.
+var c09HTTPSetKinds = []string{"protocol_name", "prefix", "repo_url", "landing_page", "describe_page", "notfound_page", "cors_origins", "cors_max_age"}
+
+func c09HTTPSet(h *vgirpc.HttpServer, k, v string) {
+	switch k {
+	case "protocol_name":
+		h.SetProtocolName(v)
+	case "prefix":
+		h.SetPrefix(v)
+	case "repo_url":
+		h.SetRepoURL(v)
+	case "landing_page":
+		h.SetEnableLandingPage(v != "")
+	case "describe_page":
+		h.SetEnableDescribePage(v != "")
+	case "notfound_page":
+		h.SetEnableNotFoundPage(v != "")
+	case "cors_origins":
+		h.SetCorsOrigins(v)
+	case "cors_max_age":
+		h.SetCorsMaxAge(len(v) * 60)
+	default:
+		panic("c09: http_set " + k)
+	}
 }
 
 func c09HTTPWith(h *vgirpc.HttpServer) (int, *c09Resp, bool) {
-	req := httptest.NewRequest(http.MethodPost, "/__describe__", bytes.NewReader(c09Request()))
+	req := httptest.NewRequest(http.MethodPost, h.Prefix()+"/__describe__", bytes.NewReader(c09Request()))
 	req.Header.Set("Content-Type", "application/vnd.apache.arrow.stream")
 	rec := httptest.NewRecorder()
 	h.ServeHTTP(rec, req)
@@ -786,6 +818,8 @@ func (p *c09Pool) op(o c09Op) string {
 		return "C09.OHash"
 	case "call":
 		return App("C09.OCall", p.b(o.S))
+	case "http_set":
+		return App("C09.OHttpSet", p.b(o.K), p.b(o.S))
 	}
 	panic("c09: op " + o.Op)
 }
@@ -806,6 +840,7 @@ func c09RunHist(ops []c09Op, pool *c09Pool, o *c09Obs) (term string, tags []stri
 	}
 	s := vgirpc.NewServer()
 	var httpSrv *vgirpc.HttpServer
+	httpServed := false
 	var regs []c09Reg
 	var terms []string
 	tagset := map[string]bool{"hist": true}
@@ -850,24 +885,30 @@ func c09RunHist(ops []c09Op, pool *c09Pool, o *c09Obs) (term string, tags []stri
 		case "desc_pipe", "desc_http":
 			var ok bool
 			h.Status = 200
-			if op.Op == "desc_pipe" {
-				h.Resp, ok = c09Pipe(s)
-			} else {
-				if httpSrv == nil { // one HttpServer for the whole history, like a deployment
-					httpSrv = vgirpc.NewHttpServer(s)
-				}
-				h.Status, h.Resp, ok = c09HTTPWith(httpSrv)
+			if httpSrv == nil { // one HttpServer for the whole history, like a deployment
+				httpSrv = vgirpc.NewHttpServer(s)
 			}
+			var okO bool
+			if op.Op == "desc_pipe" { // then the SAME server over the other transport
+				h.Resp, ok = c09Pipe(s)
+				var st int
+				st, h.Other, okO = c09HTTPWith(httpSrv)
+				okO = okO && st == 200
+			} else {
+				h.Status, h.Resp, ok = c09HTTPWith(httpSrv)
+				h.Other, okO = c09Pipe(s)
+			}
+			httpServed = true
 			var okF bool
 			h.Fresh, okF = freshAt(i)
-			h.FrameOK = ok && okF
+			h.FrameOK = ok && okF && okO
 			pl, digest := pool.payload(h.Resp)
 			if h.Resp != nil {
 				h.Hash = c09MetaGet(h.Resp, vgirpc.MetaProtocolHash)
 				h.HashOK = digest == h.Hash
 				h.DecodeOK = c09DecodeOK(h.Resp, regs)
 			}
-			terms = append(terms, App("C09.BDesc", Z(int64(h.Status)), pool.resp(h.Resp), pool.resp(h.Fresh), pl,
+			terms = append(terms, App("C09.BDesc", Z(int64(h.Status)), pool.resp(h.Resp), pool.resp(h.Fresh), pool.resp(h.Other), pl,
 				Bool(h.HashOK), Bool(h.FrameOK), Bool(h.DecodeOK)))
 			describes++
 			if changedSince {
@@ -876,6 +917,17 @@ func c09RunHist(ops []c09Op, pool *c09Pool, o *c09Obs) (term string, tags []stri
 			}
 			computed = true
 			tagset["hist-"+op.Op] = true
+		case "http_set":
+			if httpSrv == nil {
+				httpSrv = vgirpc.NewHttpServer(s)
+			}
+			if op.K == "prefix" && httpServed {
+				tagset["hist-http-prefix-after-request-skipped"] = true // SetPrefix is documented as pre-serving only
+			} else {
+				c09HTTPSet(httpSrv, op.K, op.S)
+			}
+			tagset["hist-http-set-"+op.K] = true
+			terms = append(terms, "C09.BNone")
 		case "hash":
 			h.Hash = s.ProtocolHash()
 			h.PreimageAt = -1
@@ -948,6 +1000,7 @@ type c09HObs struct {
 	Status   int      `json:"status,omitempty"`
 	Resp     *c09Resp `json:"resp,omitempty"`
 	Fresh    *c09Resp `json:"fresh,omitempty"` // brand-new server given only the mutators so far
+	Other    *c09Resp `json:"other,omitempty"` // the same server over the other transport
 	Hash     string   `json:"hash,omitempty"`  // digest reported (describe) / returned (ProtocolHash())
 	HashOK   bool     `json:"hash_ok,omitempty"`
 	FrameOK  bool     `json:"frame_ok,omitempty"`
@@ -977,7 +1030,7 @@ func c09Run(in c09In) CaseOut {
 		o.Pipe = o.Pipe.withWire()
 		return CaseOut{Coq: "child", Obs: o}
 	}
-	o.HTTPStatus, o.HTTP, okHTTP = c09HTTP(s)
+	o.HTTPStatus, o.HTTP, okHTTP = c09HTTP(s, in.HTTPSet)
 	var okAlt bool
 	o.Alt, okAlt = c09Pipe(c09Server(in, regs2))
 	o.FrameOK = okPipe && okHTTP && okAlt
@@ -1005,7 +1058,8 @@ func c09Run(in c09In) CaseOut {
 	histObs, histTags, histNontrivial := c09RunHist(in.Hist, pool, &o)
 	coqIn := App("C09.Build_input",
 		App("C09.Build_cfg", pool.b(in.Service), pool.b(in.ServerID), pool.b(in.PV)),
-		ListOf(in.Regs, pool.reg), ListOf(regs2, pool.reg), Bool(in.Sub), ListOf(in.Hist, pool.op))
+		ListOf(in.Regs, pool.reg), ListOf(regs2, pool.reg), Bool(in.Sub), ListOf(in.Hist, pool.op),
+		ListOf(in.HTTPSet, func(kv [2]string) string { return Pair(pool.b(kv[0]), pool.b(kv[1])) }))
 	coqObs := App("C09.Build_obs", pool.resp(o.Pipe), Z(int64(o.HTTPStatus)), pool.resp(o.HTTP), pool.resp(o.Alt),
 		sub, payload, Bool(o.HashOK), Bool(o.FrameOK), Bool(o.DecodeOK), Bool(o.AccessorOK), histObs)
 
@@ -1050,6 +1104,9 @@ func c09Run(in c09In) CaseOut {
 		tags = append(tags, "default-protocol-name")
 	}
 	tags = append(tags, histTags...)
+	for _, kv := range in.HTTPSet {
+		tags = append(tags, "http-set-"+kv[0])
+	}
 	sort.Strings(tags)
 	return CaseOut{Coq: pool.wrap(Pair(coqIn, coqObs)), Tags: tags, Nontrivial: len(in.Regs) >= 2 || histNontrivial, Obs: o}
 }
@@ -1158,6 +1215,18 @@ func c09Gen(r *rand.Rand, n int, tier string) []c09In {
 	} {
 		out = append(out, c09In{Perm: []int{}, Hist: h})
 	}
+	// ---- HttpServer front-end setters must not reach __describe__: static and in histories
+	hset := func(k, v string) c09Op { return c09Op{Op: "http_set", K: k, S: v} }
+	two := []c09Reg{{Kind: "unary", Name: "a", P: 1, R: 0}, {Kind: "producer_h", Name: "b", P: 2, Out: 1, Hdr: 1}}
+	for _, kv := range [][2]string{{"protocol_name", "Inventory API (staging)"}, {"prefix", "/vgi"}, {"repo_url", "https://example.com/r"},
+		{"landing_page", ""}, {"describe_page", ""}, {"notfound_page", ""}, {"cors_origins", "*"}, {"cors_max_age", "xx"}} {
+		add(c09In{Service: "Inventory", ServerID: "s", Regs: two, HTTPSet: [][2]string{kv}})
+		add(c09In{Regs: two, HTTPSet: [][2]string{kv}}) // default protocol name on the Server side
+		out = append(out, c09In{Perm: []int{}, Hist: []c09Op{set("set_service", "Inventory"), rg("unary", "a", 1, 0), hset(kv[0], kv[1]), dh, dp, hs}})
+	}
+	out = append(out, c09In{Perm: []int{}, Hist: []c09Op{rg("unary", "a", 1, 0), dh, hset("protocol_name", "Shown"), dh, dp, hset("protocol_name", ""), dp}})
+	out = append(out, c09In{Perm: []int{}, Hist: []c09Op{hset("prefix", "/p"), hset("protocol_name", "P"), rg("unary_void", "a", 0, 0), call("a"), dp, rg("unary", "b", 1, 1), dh, hs}})
+	add(c09In{Service: "svc", Regs: two, HTTPSet: [][2]string{{"prefix", "/x/y"}, {"protocol_name", "svc"}, {"protocol_name", "GoRpcServer"}, {"cors_origins", "https://e.example"}}})
 
 	subEvery := 40
 	if tier == "thorough" {
@@ -1209,9 +1278,29 @@ func c09Gen(r *rand.Rand, n int, tier string) []c09In {
 			in.Perm = []int{}
 		}
 		in.Sub = len(out)%subEvery == 0
+		if r.Intn(10) < 3 {
+			for j := 1 + r.Intn(3); j > 0; j-- {
+				in.HTTPSet = append(in.HTTPSet, c09RandHTTPSet(r))
+			}
+		}
 		out = append(out, in)
 	}
 	return out
+}
+
+func c09RandHTTPSet(r *rand.Rand) [2]string {
+	k := c09HTTPSetKinds[r.Intn(len(c09HTTPSetKinds))]
+	if r.Intn(3) == 0 {
+		k = "protocol_name"
+	}
+	v := []string{"", "x", "Inventory API (staging)", "svc", "*"}[r.Intn(5)]
+	switch k {
+	case "prefix":
+		v = []string{"", "/vgi", "/a/b"}[r.Intn(3)]
+	case "repo_url":
+		v = []string{"", "https://example.com/repo"}[r.Intn(2)]
+	}
+	return [2]string{k, v}
 }
 
 // c09RandHist: 3-14 ops; registrations (a quarter re-register a name already
@@ -1242,7 +1331,10 @@ func c09RandHist(r *rand.Rand) []c09Op {
 			ops = append(ops, c09Op{Op: "set_server_id", S: []string{"", "id-1", "id-2"}[r.Intn(3)]})
 		case x < 55:
 			ops = append(ops, c09Op{Op: "set_pv", S: []string{"", "1.0.0", "2.1.0"}[r.Intn(3)]})
-		case x < 72:
+		case x < 62:
+			kv := c09RandHTTPSet(r)
+			ops = append(ops, c09Op{Op: "http_set", K: kv[0], S: kv[1]})
+		case x < 75:
 			ops = append(ops, c09Op{Op: "desc_pipe"})
 		case x < 84:
 			ops = append(ops, c09Op{Op: "desc_http"})
@@ -1271,6 +1363,6 @@ func init() {
 	vgirpc.VerifC09AddConsts(func() []vgirpc.VerifConst {
 		return []vgirpc.VerifConst{{Name: "c09_pool", Kind: "list", List: c09Family()}}
 	})
-	Register("C09", "boundary surfaces first (empty, one method of each of the 7 registration functions with and without header schema, every parameter/result type, duplicate names, all ordering-edge names), then random surfaces of 0-16 registrations over 20 names x 7 kinds x 6 parameter types x 6 result types x 5 output x 3 header schemas (+nil), about a fifth with repeated names (last registration wins), each served by two real Servers in two registration orders over pipe and HTTP (and a fresh process for a sample); 40% of the random cases are HISTORIES on one server (10 boundary shapes first: describe / register one more / describe again over pipe and HTTP, service name set between, a name re-registered with another signature, ProtocolHash() or a dispatched call before the change, ...; then 4-15 random ops: registrations, setters, describes, ProtocolHash(), calls) where every describe is also compared with a brand-new server given the same registrations and setters; non-trivial = at least 2 registrations, or a history with a describe after a surface change that follows the first digest computation; distinct = distinct input JSON",
+	Register("C09", "boundary surfaces first (empty, one method of each of the 7 registration functions with and without header schema, every parameter/result type, duplicate names, all ordering-edge names), then random surfaces of 0-16 registrations over 20 names x 7 kinds x 6 parameter types x 6 result types x 5 output x 3 header schemas (+nil), about a fifth with repeated names (last registration wins), each served by two real Servers in two registration orders over pipe and HTTP (and a fresh process for a sample); 40% of the random cases are HISTORIES on one server (10 boundary shapes first: describe / register one more / describe again over pipe and HTTP, service name set between, a name re-registered with another signature, ProtocolHash() or a dispatched call before the change, ...; then 4-15 random ops: registrations, setters, describes, ProtocolHash(), calls) where every describe is also compared with a brand-new server given the same registrations and setters AND with the same server asked over the other transport; HttpServer front-end setters (SetProtocolName, SetPrefix, SetRepoURL, page toggles, CORS) are applied statically (8 kinds x 2 boundary surfaces first, then 30% of random static cases) and as history ops (7% of ops); non-trivial = at least 2 registrations, or a history with a describe after a surface change that follows the first digest computation; distinct = distinct input JSON",
 		c09Gen, c09Run)
 }
